@@ -27,7 +27,7 @@ TIME_EXTRACTORS = ["hour", "minute", "second", "microsecond"]
 FORMATS = ["%Y-%m-%d", "%d.%m.%Y", "%Y-%m-%dT%H:%M:%S", "%Y-%m-%dT%H:%M:%S.%f", "%j", "%A %B"]
 EDGE_DATES = ["2020-12-31", "2021-01-03", "2021-01-04", "2024-02-29", "1969-12-31", "1970-01-01", "2015-12-28",
               "2016-01-03", "0001-01-01", "9999-12-31", "1999-12-31", "2000-01-01", "1900-02-28"]
-PATTERNS = ["[a-z]", r"\d+", "x*", "$", "^", "(a)(b)?", r"\s+", ".", "a|b", "(?P<n>é)"]
+PATTERNS = ["[a-z]", r"\d+", "x*", "$", "^", "(a)(b)?", r"\s+", ".", "a|b", "(?P<n>é)", "a", "ab", "b", "é", "1", " "]
 STRINGS = ["", "a", "ab", "abc abc", "A1 b22", "é", "日本 x", "xxx", " ", "a\nb", "12"]
 UNITS = {"D": "d", "s": "ts", "ms": "tm", "us": "t"}
 
@@ -87,7 +87,7 @@ def _re_plan(draw, max_len):
     if fn == "split":
         plan["maxsplit"] = draw(st.sampled_from([0, 1, 2]))
     if fn in ("sub", "subn"):
-        plan["repl"] = draw(st.sampled_from(["", "!", "\\1", "<\\g<0>>"]))
+        plan["repl"] = draw(st.sampled_from(["", "!", "\\1", "<\\g<0>>", "\\\\", "\\n", "[\\g<0>\\g<0>]"]))
         plan["count"] = draw(st.sampled_from([0, 1, 2]))
     return plan
 
